@@ -255,6 +255,11 @@ oscore_decode_option_value(const uint8_t *opt_value,
   if (option_len == 0)
     return 1; /* empty option */
 
+  if (opt_value[0] == 0) {
+    /* RFC8613 6.1: if the flag bits are all zero the option value SHALL be empty */
+    return 0;
+  }
+
   if (option_len > 255 || partial_iv_len == 6 || partial_iv_len == 7 ||
       (opt_value[0] & 0xC0) != 0) {
     return 0;
@@ -299,6 +304,9 @@ oscore_decode_option_value(const uint8_t *opt_value,
     }
     key_id.s = &(opt_value[offset]);
     cose_encrypt0_set_key_id(cose, &key_id);
+  } else if (offset != option_len) {
+    /* without a kid nothing may follow the last field */
+    return 0;
   }
   return 1;
 }
